@@ -45,12 +45,16 @@ type tqResult struct {
 }
 
 func (r *tqResult) fail(sig, what string, seq ...string) {
+	r.failP([]string{"C18"}, sig, what, seq...)
+}
+
+func (r *tqResult) failP(props []string, sig, what string, seq ...string) {
 	for _, f := range r.Failures {
 		if f.Sig == sig {
 			return
 		}
 	}
-	r.Failures = append(r.Failures, tqFailure{Props: []string{"C18"}, What: what, Sig: sig, Seq: seq})
+	r.Failures = append(r.Failures, tqFailure{Props: props, What: what, Sig: sig, Seq: seq})
 }
 
 // tqInterval: the interval a view name denotes, from its digits alone.
@@ -205,6 +209,95 @@ func TestRcheckTimeq(t *testing.T) {
 				} else {
 					res.fail("range-long", fmt.Sprintf("views end at %s, range ends at %s", cur.Format("2006-01-02T15"), end.Format("2006-01-02T15")), desc)
 				}
+			}
+		}
+	}
+
+	// Unaligned ranges (C16: Rows/Row over "the given time range" for any from/to):
+	// whatever the quantum, the views read must be disjoint, stay inside the range
+	// rounded outwards to the coarsest unit, and cover every whole finest unit that lies
+	// inside the range (a bit stamped in such a unit is in the range and must be found).
+	floorTo := func(t time.Time, q TimeQuantum) time.Time {
+		switch {
+		case q.HasHour():
+			return time.Date(t.Year(), t.Month(), t.Day(), t.Hour(), 0, 0, 0, time.UTC)
+		case q.HasDay():
+			return time.Date(t.Year(), t.Month(), t.Day(), 0, 0, 0, 0, time.UTC)
+		case q.HasMonth():
+			return time.Date(t.Year(), t.Month(), 1, 0, 0, 0, 0, time.UTC)
+		}
+		return time.Date(t.Year(), 1, 1, 0, 0, 0, 0, time.UTC)
+	}
+	nextUnit := func(t time.Time, q TimeQuantum) time.Time {
+		switch {
+		case q.HasHour():
+			return t.Add(time.Hour)
+		case q.HasDay():
+			return t.AddDate(0, 0, 1)
+		case q.HasMonth():
+			return time.Date(t.Year(), t.Month()+1, 1, 0, 0, 0, 0, time.UTC)
+		}
+		return time.Date(t.Year()+1, 1, 1, 0, 0, 0, 0, time.UTC)
+	}
+	for _, q := range quanta {
+		if q.HasHour() {
+			continue // every grid instant is aligned for these
+		}
+		for n := 0; n < pairsPerQuantum/3; n++ {
+			i, j := rng.Intn(len(grid)), rng.Intn(len(grid))
+			if grid[j].Before(grid[i]) {
+				i, j = j, i
+			}
+			start, end := grid[i], grid[j]
+			if !start.Before(end) || (tqAligned(start, q) && tqAligned(end, q)) {
+				continue
+			}
+			if !q.HasMonth() && !q.HasYear() && end.Sub(start) > 24*time.Hour*400 {
+				continue
+			}
+			innerLo := floorTo(start, q)
+			if innerLo.Before(start) {
+				innerLo = nextUnit(innerLo, q)
+			}
+			innerHi := floorTo(end, q)
+			if !innerLo.Before(innerHi) {
+				continue
+			}
+			views := viewsByTimeRange("f", start, end, q)
+			res.Evaluations++
+			desc := fmt.Sprintf("viewsByTimeRange(f, %s, %s, %s) = %v", start.Format("2006-01-02T15"), end.Format("2006-01-02T15"), q, tqShort(views))
+			type iv struct{ s, e time.Time }
+			var ivs []iv
+			bad := false
+			for _, v := range views {
+				s0, e0, err := tqInterval(v, "f")
+				if err != nil {
+					bad = true
+					break
+				}
+				ivs = append(ivs, iv{s0, e0})
+			}
+			if bad {
+				continue
+			}
+			sort.Slice(ivs, func(a, b int) bool { return ivs[a].s.Before(ivs[b].s) })
+			cur := innerLo
+			for k, x := range ivs {
+				if k > 0 && x.s.Before(ivs[k-1].e) {
+					res.failP([]string{"C16", "C18"}, "unaligned-overlap", "two views of an unaligned range overlap", desc)
+					break
+				}
+				if !x.e.After(cur) {
+					continue
+				}
+				if x.s.After(cur) && cur.Before(innerHi) {
+					res.failP([]string{"C16", "C18"}, "unaligned-gap", fmt.Sprintf("no view covers [%s, %s) although it lies inside the range", cur.Format("2006-01-02T15"), x.s.Format("2006-01-02T15")), desc)
+					break
+				}
+				cur = x.e
+			}
+			if cur.Before(innerHi) && len(res.Failures) == 0 {
+				res.failP([]string{"C16", "C18"}, "unaligned-short", fmt.Sprintf("views end at %s, the range contains whole units up to %s", cur.Format("2006-01-02T15"), innerHi.Format("2006-01-02T15")), desc)
 			}
 		}
 	}
